@@ -277,6 +277,26 @@ func runRobust(tier string, seed int64, phase string) {
 		recByEntropy(r.bytes(16), l, Event{"fam": "wraplang"})
 	}
 	runUniform(seed, all10, "uniform")
+	// ill-formed UTF-8 inside otherwise valid sentences: as a whole token, glued to a word, inside a multi-byte word
+	for _, lang := range all10 {
+		idx := indicesOf(r.bytes(sizes[r.intn(5)]))
+		for _, junk := range invalidUTF8Shapes() {
+			maybeCut()
+			ws := strings.Split(sentence(idx, lang, " "), " ")
+			p := r.intn(len(ws))
+			c := append([]string(nil), ws...)
+			c[p] = junk
+			recCheck(strings.Join(c, " "), int64(lang), Event{"cls": "badutf8"})
+			c[p] = ws[p] + junk
+			recCheck(strings.Join(c, " "), int64(lang), Event{"cls": "badutf8"})
+			if len(ws[p]) > 2 {
+				c[p] = ws[p][:len(ws[p])-1] + junk // cuts the last character of the word
+				recCheck(strings.Join(c, " "), int64(lang), Event{"cls": "badutf8"})
+			}
+			c[p] = strings.Repeat(ws[p], 3000) // one very long token
+			recCheck(strings.Join(c, " "), int64(lang), Event{"cls": "longtoken"})
+		}
+	}
 	runWhitespaceMix(seed, map[string]int{"quick": 600, "thorough": 10000}[tier], langs)
 	// fuzzed bytes
 	nf := map[string]int{"quick": 300, "thorough": 5000}[tier]
